@@ -25,13 +25,14 @@ enum Op : int {
     OP_COL_POINT,      // i0 deviation, i1 value seed ; s.. names of the new columns
     OP_COL_ANALOG,     // i0 deviation, i1 value seed ; s.. names
     OP_COL_MUTATE,     // i0 seed : the caller changes the frame vector it handed to the last column op
-    OP_SAVE,           // i0 path id ; fault spec attached
+    OP_SAVE,           // i0 path id, i1 what the destination holds before (absent/0 nothing, -1 the previous save of that path, n>0 a stale file of n junk bytes) ; fault spec attached
     OP_RELOAD,         // i0 path id (modulo saved paths): destroy the object, construct from that file
     OP_PRINT,
     OP_FILL_GAPS,      // i0 value seed : replace every empty stored frame by a conforming one ("complete frames")
     OP_BULK_FRAMES,    // i0 count, i1 value seed : append count conforming frames (no per-frame observation)
     OP_FRAME_DUP,      // i0 source frame (mod), i1 index mode, i2 raw : hand one of the object's OWN stored frames back to frame() (duplicate it)
     OP_PARAM_EDIT,     // i0 group (mod), i1 parameter (mod), i2 edit kind, i3 target selector ; s0 new description, s1 new group name : copy a parameter OUT of the object, edit it through its setters, hand it back (kind 3: hand the object's own parameter, by reference, to another or a new group)
+    OP_LOOKUP,         // i0 seed : by-name getters (point, channel, group, parameter and their Idx forms) on names the object holds and on one it does not
     OP_NOPS
 };
 const char *op_name(int op);
